@@ -1765,7 +1765,11 @@ class Comparator(BinaryOperator):
         self._want_false_results_(yield_when_false)
 
         if self._id_ in sources:
-            yield sources
+            # already decided under this binding (the same comparison object occurs twice in the condition): it is the
+            # recorded result that says whether the comparison holds here, not whatever was evaluated last.
+            self._is_false_ = not sources[self._id_].value
+            if yield_when_false or not self._is_false_:
+                yield sources
             return
 
         # a concatenation is one value for ALL bindings of its variables (which it binds to the lists of their values):
@@ -1788,7 +1792,9 @@ class Comparator(BinaryOperator):
                 operand_value_map[second_operand._id_] = second_value[second_operand._id_]
                 res = self.apply_operation(operand_value_map)
                 self._is_false_ = not res
-                if res or self._yield_when_false_:
+                # (decided with what THIS evaluation was asked for: the same comparison object may be evaluated again, in
+                # another place of the condition, before this evaluation is resumed, and the attribute is shared)
+                if res or yield_when_false:
                     values = copy(first_value)
                     values.update(second_value)
                     values.update(operand_value_map)
